@@ -249,6 +249,8 @@ class UnitResult(object):
 def run_unit(name, thunk, on_result=None, max_paths=20000, require_obligations=True):
     """explore thunk; thunk (and on_result) register obligations on the current path"""
     res = UnitResult(name)
+    from . import models as _models
+    _models.USED.clear()
     t0 = time.time()
     q0, s0 = E.STATS['queries'], E.STATS['solver_s']
     try:
@@ -279,4 +281,5 @@ def run_unit(name, thunk, on_result=None, max_paths=20000, require_obligations=T
     res.queries = E.STATS['queries'] - q0
     res.solver_s = E.STATS['solver_s'] - s0
     res.unsupported = sorted(set(res.unsupported))
+    res.extra['models_used'] = sorted(_models.USED)
     return res
